@@ -55,6 +55,10 @@ enum Scenario {
     /// call with timeout T; reply delivered `early_ms` before (Some) or never/after the deadline
     Timeout { kind: Kind, reply_before_ms: Option<u64>, second_in_flight: bool },
     TwoTimeouts { kind: Kind },
+    /// `n` calls give up (their 2 s timeout passes, or their futures are dropped) while one long call stays in
+    /// flight; the peer then answers all `n` LATE, back to back (no live reply in between), then the long call;
+    /// the connection keeps serving: the long call gets its own reply and three fresh calls are answered
+    LateBurst { kind: Kind, n: usize, dropped: bool },
     /// abort the call task at a chosen point of its life
     Cancel { kind: Kind, point: CancelPoint },
     /// the same AsyncClient scenario with `Cli::call` going through forward_message (all / even tags)
@@ -114,6 +118,11 @@ fn scenarios(tier: Tier) -> Vec<Scenario> {
             }
         }
         v.push(Scenario::TwoTimeouts { kind });
+        for n in [1usize, 3, 7, 8, 9, 16, 33, 70] {
+            for dropped in [false, true] {
+                v.push(Scenario::LateBurst { kind, n, dropped });
+            }
+        }
         v.push(Scenario::Cancel { kind, point: CancelPoint::BeforeStart });
         v.push(Scenario::Cancel { kind, point: CancelPoint::AwaitingResponse });
     }
@@ -507,6 +516,67 @@ async fn run_two_timeouts(kind: Kind) -> (Bad, u64) {
     (bad, 16)
 }
 
+async fn run_late_burst(kind: Kind, n: usize, dropped: bool) -> (Bad, u64) {
+    let mut bad = Bad::new();
+    let ctx = format!("{} {n} calls {} then answered late back to back", kind.name(), if dropped { "dropped" } else { "timed out" });
+    let Conn { cli, mut peer, .. } = clients::connect(kind).await;
+    let long = tokio::spawn(cli.call(500, Some(Duration::from_secs(3600)), 0));
+    let mut hs = Vec::new();
+    for i in 0..n {
+        hs.push(tokio::spawn(cli.call(1 + i as u64, if dropped { None } else { Some(Duration::from_secs(2)) }, 0)));
+    }
+    let reqs = peer.drain_requests().await.unwrap_or_default();
+    let ids = clients::tag_ids(&reqs);
+    if dropped {
+        for h in &hs {
+            h.abort();
+        }
+    } else {
+        tokio::time::advance(Duration::from_secs(3)).await;
+    }
+    memstream::settle().await;
+    for (i, h) in hs.into_iter().enumerate() {
+        let r = clients::join_call(h).await;
+        if !dropped && r != Res::Timeout {
+            bad.push(("C06:timeout-race:wrong-result".into(), format!("{ctx}: call #{i} (2 s timeout) returned {r:?} after 3 s without a response")));
+        }
+    }
+    if cli.pending() != 1 {
+        bad.push(("C06:pending-residue".into(), format!("{ctx}: {} pending entries while exactly one call is in flight", cli.pending())));
+    }
+    // the late answers, consecutively
+    for i in 0..n {
+        if let Some(id) = ids.get(&(1 + i as u64)) {
+            peer.send(&clients::reply(*id)).await;
+        }
+    }
+    memstream::settle().await;
+    if let Some(id) = ids.get(&500) {
+        peer.send(&clients::reply(*id)).await;
+    }
+    let rl = clients::join_call(long).await;
+    if Some(&rl) != ids.get(&500).map(|i| Res::Id(*i)).as_ref() {
+        bad.push(("C06:sibling-affected".into(), format!("{ctx}: the call that was still in flight, answered after the late burst, returned {rl:?}")));
+    }
+    for k in 0..3u64 {
+        let h = tokio::spawn(cli.call(600 + k, Some(Duration::from_secs(3600)), 0));
+        let reqs = peer.drain_requests().await.unwrap_or_default();
+        let id = clients::tag_ids(&reqs).get(&(600 + k)).copied();
+        if let Some(id) = id {
+            peer.send(&clients::reply(id)).await;
+        }
+        let r = clients::join_call(h).await;
+        if id.is_none() || r != Res::Id(id.unwrap_or(0)) {
+            bad.push(("C06:connection-stops-serving-after-timeouts".into(), format!("{ctx}: fresh call #{k} afterwards returned {r:?} (request reached the peer: {})", id.is_some())));
+            break;
+        }
+    }
+    if cli.pending() != 0 {
+        bad.push(("C06:pending-residue".into(), format!("{ctx}: {} pending entries at the end", cli.pending())));
+    }
+    (bad, 16)
+}
+
 async fn run_cancel(kind: Kind, point: CancelPoint) -> (Bad, u64) {
     let mut bad = Bad::new();
     let ctx = format!("{} cancel at {point:?}", kind.name());
@@ -633,6 +703,7 @@ async fn run_plain(sc: &Scenario) -> (Bad, u64) {
         Scenario::Failure { kind, inflight, timed, fault } => run_failure(*kind, *inflight, *timed, *fault).await,
         Scenario::Timeout { kind, reply_before_ms, second_in_flight } => run_timeout(*kind, *reply_before_ms, *second_in_flight).await,
         Scenario::TwoTimeouts { kind } => run_two_timeouts(*kind).await,
+        Scenario::LateBurst { kind, n, dropped } => run_late_burst(*kind, *n, *dropped).await,
         Scenario::Cancel { kind, point } => run_cancel(*kind, *point).await,
         Scenario::FailureStalled { kind, inflight, fault, resume } => run_failure_stalled(*kind, *inflight, *fault, *resume).await,
         Scenario::FailureResub { over_stale, inflight, fault } => {
